@@ -42,6 +42,11 @@ func catalogue() []schedScenario {
 	yp.StoreYield = true
 	ms := sc("S14:a{l=0}+a/merged selects", `a{l="0"} + a`, 4, 2, 1, 2)
 	ms.Case.O.Optimizers = ""
+	// merged selects with a yield point in every storage callback: the filtered operand can
+	// load while a plain shard is inside its series-loading loop
+	my := sc("S15:a{l=0}+a/merged selects/store yields", `a{l="0"} + a`, 4, 1, 2, 2)
+	my.Case.O.Optimizers = ""
+	my.StoreYield = true
 	return []schedScenario{
 		sc("S1:a/2shards", `a`, 4, 2, 2, 3),
 		s2,
@@ -56,7 +61,7 @@ func catalogue() []schedScenario {
 		sc("S8:a@10+a", `a @ 10 + a`, 2, 2, 1, 2),
 		sc("S9a:a/31steps", `a`, 2, 31, 1, 2),
 		sc("S9b:sum by (l)(a)/31steps", `sum by (l)(a)`, 2, 31, 1, 1),
-		dist, inst, pp, yp, ms,
+		dist, inst, pp, yp, ms, my,
 	}
 }
 
@@ -224,6 +229,23 @@ func init() {
 		for _, s := range catalogue() {
 			s := s
 			runSched(c, &s, "C11", nil, sameAsRoot)
+			if c.Expired() || c.Rep.HarnessErr != "" {
+				return
+			}
+		}
+	})
+	check.Register("C18/sched", func(c *check.Ctx) {
+		// the operator monitor under every bounded interleaving of the drivers
+		for _, s := range catalogue() {
+			s := s
+			runSched(c, &s, "C18", nil, func(root *explore.Obs) func(o *explore.Obs, sd explore.Sched) (string, string) {
+				return func(o *explore.Obs, sd explore.Sched) (string, string) {
+					if sym, det := baseOracle(o); sym != "" {
+						return sym, det
+					}
+					return monSymptom(o.Mon)
+				}
+			})
 			if c.Expired() || c.Rep.HarnessErr != "" {
 				return
 			}
